@@ -784,6 +784,13 @@ fn expand_runs(c: &mut SimCase, mut main: RunSpec, p: &mut Prng) {
     cap.oc = p.chance(1, 2);
     cap.on = p.chance(1, 2);
     runs.push(cap);
+    // a length cap that can never bind (a caller's "effectively unlimited"): must behave like no cap
+    if p.chance(1, 3) {
+        let mut huge = u.clone();
+        huge.name = "huge".into();
+        huge.mtl = usize::MAX;
+        runs.push(huge);
+    }
     // `sim`: thread RNG, no iteration cap: bounded through the length cap unless there are no machines
     let no_machines = c.mc.is_empty() && c.ms.is_empty();
     let s = RunSpec {
